@@ -48,6 +48,13 @@ fn schedule_strategy(maxlen: usize) -> BoxedStrategy<Vec<u8>> {
         2 => prop::collection::vec(any::<u8>(), 0..=maxlen),
         // bursty: long solo runs with a few pre-emptions
         3 => prop::collection::vec((0u8..4, 1u8..=24), 0..=12).prop_map(|runs| runs.into_iter().flat_map(|(t, k)| std::iter::repeat(t).take(k as usize)).collect()),
+        // one long pre-emption: thread a runs j points, then thread b runs alone for a long stretch, then a again
+        3 => (0u8..4, 0usize..48, 0u8..4, 20usize..220, 0usize..40).prop_map(|(a, j, b, l, k)| {
+            let mut v = vec![a; j];
+            v.extend(std::iter::repeat(b).take(l));
+            v.extend(std::iter::repeat(a).take(k));
+            v
+        }),
         1 => Just(Vec::new()),
     ]
     .boxed()
@@ -99,7 +106,7 @@ macro_rules! engb_prop {
                 case_b_strategy(tier, $fl, $c12)
             }
             fn run(case: &CaseB) -> CaseReport {
-                let r = run_case_b(case, &OptsB { detect_races: $races });
+                let r = run_case_b(case, &OptsB { detect_races: $races, owner: $id });
                 let mut classes: BTreeSet<&'static str> = r.classes.clone();
                 if r.cas_failures > 0 {
                     classes.insert("cas-failure");
@@ -143,5 +150,5 @@ engb_prop!(C07, "C07", LIST_FL, false, false, 24_000, 1_500_000,
     |r| r.saw_marked || r.cas_failures >= 1);
 
 engb_prop!(C12, "C12", ALL_FL, true, true, 16_000, 1_000_000,
-    "Engine B programs extended with owned buffers created on one thread and sent to / dropped on another (harness mailbox carrying a vector clock), arena clones created and dropped by threads. A FastTrack-style detector is driven by the hook's event stream with the orderings the code actually passes: release clocks per atomic location (store Release sets, relaxed store clears, RMW joins and continues the release sequence), acquire on loads / failed CAS with an acquiring ordering; per-byte shadow of the last write and last reads for the owners' plain accesses, the arena's zeroing, the arena's atomic accesses inside arena memory and the final release of the backing memory. Race = two accesses to a common byte by different threads, at least one a write, at least one non-atomic, unordered. Non-trivial = a byte range changed owner thread at least once",
-    |r| r.owner_changes >= 1);
+    "Engine B programs extended with owned buffers created on one thread and sent to / dropped on another (harness mailbox carrying a vector clock), arena clones created and dropped by threads. A FastTrack-style detector is driven by the hook's event stream with the orderings the code actually passes: release clocks per atomic location (store Release sets, relaxed store clears, RMW joins and continues the release sequence), acquire on loads / failed CAS with an acquiring ordering; per-byte shadow of the last write and last reads for the owners' plain accesses, the arena's zeroing, the arena's atomic accesses inside arena memory and the final release of the backing memory. Race = two accesses to a common byte by different threads, at least one a write, at least one non-atomic, unordered. The original arena value is moved into thread 0 and the main thread keeps none, so the backing memory is released by whichever thread drops the last value, under the scheduler, and that release is checked as a plain write to every byte. Non-trivial = a byte range changed owner thread at least once, or the last arena value was dropped by a thread other than the creator's",
+    |r| r.owner_changes >= 1 || r.classes.contains("last-drop-on-non-creator-thread"));
